@@ -657,6 +657,15 @@ def r07_10(ctx, rep):
     run_as(r05_1, "R07.10", ctx, rep)
 
 
+@SPEC.rule(
+    "R07.11",
+    "every symbol and equation is merged under its own instance: no function of the flattening passes reads a for-loop's variable after that loop has ended (the value the last iteration left behind)",
+)
+def r07_11(ctx, rep):
+    from ._literal import no_stale_loop_variables
+    no_stale_loop_variables(ctx, rep, "R07.11", TREE, "the flattening passes")
+
+
 # -- seeded variants ---------------------------------------------------------
 from ._mut import delete_stmt_where, replace_in_func  # noqa: E402
 
